@@ -68,6 +68,9 @@ type svEnv struct {
 	n      int // parties 0..n-1
 	height int64
 	extra  []func(l *svLedger) // kind-specific ledger readers
+	// beforeDeliver runs right before the delivery (after the ledger was
+	// read): in-memory residue a previous handler may have left behind
+	beforeDeliver func()
 }
 
 type svPool struct {
@@ -174,6 +177,9 @@ func (e *svEnv) step(raw action.RawTx, signers []int, admitted bool) *svStepResu
 	}
 	r := &svStepResult{signers: signers}
 	r.before = e.ledger()
+	if e.beforeDeliver != nil {
+		e.beforeDeliver()
+	}
 	r.resp = svDeliver(e.app, tx)
 	r.after = e.ledger()
 	// observables for cross-validation against the native run
